@@ -110,6 +110,12 @@ def selftest(tier):
                       allow_violation=True)
     ok &= expect("TLC refutes ExactlyOnce on the implementation-level model with the pre-repair retain/dedup loops",
                  res.violated == "ExactlyOnce", str(res.violated))
+    # ---- LoopForms: a wrong closed form / trip count in the transcribed loop algebra must be refuted
+    for mut, inv in ((1, "TriOK"), (2, "GeoOK"), (3, "TripOK")):
+        res = tlc.run_tlc("LoopForms", env={"MAXW": 2, "GEN": 0, "MUT": mut}, workers=4, timeout=300,
+                          allow_violation=True)
+        ok &= expect("TLC refutes %s on LoopForms.tla with mutation %d" % (inv, mut), res.violated == inv,
+                     str(res.violated))
     # ---- a removed hook must fail closed: a harness that does not build is a tool error, not a pass
     print("selftest: %s" % ("all expectations hold" if ok else "SOME EXPECTATIONS FAILED"), flush=True)
     return 0 if ok else 2
